@@ -82,10 +82,15 @@ Definition mismatches valid_ids meta_ids dir := mismatches_from valid_ids meta_i
 Definition names_ok (dir : string) (ns : list string) : list bool := map (name_okb dir) ns.
 
 (* save-crash: what the model leaves after a kill before primitive step number n of UpdateSpec
-   (0 = nothing done), as seen in the victim file: 0 old text, 1 empty, 2 new text, 3 something else *)
+   (0 = nothing done), as seen in the victim file: 0 old text, 1 empty, 2 new text, 3 something else;
+   second component: the DAG files List shows in that crash state *)
 Definition crash_code (valid : bytes -> bool) (dir name old new : string) (n : nat) : nat :=
   let f := [(file_loc dir name, old)] in
-  match fs_get (file_loc dir name) (crash_fs valid dir f name new n (S (String.length new))) with
+  match fs_get (file_loc dir name) (crash_fs valid dir f name new "123456" n (S (String.length new))) with
   | Some b => if String.eqb b old then 0 else if String.eqb b "" then 1 else if String.eqb b new then 2 else 3
   | None => 3
   end.
+
+Definition crash_listed (valid meta_ok : bytes -> bool) (dir name old new : string) (n : nat) : list string :=
+  let f := [(file_loc dir name, old)] in
+  snd (step valid meta_ok dir (mkW (crash_fs valid dir f name new "123456" n (S (String.length new))) [] []) OList).
